@@ -2,6 +2,7 @@
 //! grammar (C21) and the single-node RESP API against the event-store model (C22).
 use hcommon::Report;
 
+mod api;
 mod client;
 mod parse;
 
@@ -16,6 +17,10 @@ fn main() {
             parse::parse_cmd(&mut rep, &args[2]);
             let rt = tokio::runtime::Builder::new_multi_thread().worker_threads(2).enable_all().build().unwrap();
             rt.block_on(client::client_cmd(&mut rep));
+        }
+        "api" => {
+            let rt = tokio::runtime::Builder::new_multi_thread().worker_threads(6).enable_all().build().unwrap();
+            rt.block_on(api::api_cmd(&mut rep, &args[2], &args[3]));
         }
         other => panic!("unknown subcommand {other}"),
     }
